@@ -266,6 +266,4 @@ def neutral_ok(ret_type, value, name=""):
         return value is None or value == b""
     if ret_type == "void*":
         return value is None or value == 0
-    if name == "interrogate_type_array_size":
-        return value in (0, 1)      # a non-array type has array size 1; the bogus record is a non-array type
     return value == 0
